@@ -69,7 +69,7 @@ def env_for_kani():
     return e
 
 
-def prepare_group(group):
+def prepare_group(group, tier="thorough"):
     gdir = os.path.join(VERIF, "engines", "kani", group)
     # the lock file starts as a copy of the repository's, so that dependency versions match
     lock = os.path.join(gdir, "Cargo.lock")
@@ -77,13 +77,15 @@ def prepare_group(group):
         shutil.copy(os.path.join(REPO, "Cargo.lock"), lock)
     gen = os.path.join(gdir, "gen.py")
     if os.path.exists(gen):
-        subprocess.run([sys.executable, gen], cwd=gdir, check=True)
+        e = dict(os.environ)
+        e["VERIF_GEN_TIER"] = tier
+        subprocess.run([sys.executable, gen], cwd=gdir, check=True, env=e)
     return gdir
 
 
-def run_kani_group(group, names, jobs, harness_timeout, overall_timeout, mem_gb, tag):
+def run_kani_group(group, names, jobs, harness_timeout, overall_timeout, mem_gb, tag, tier="thorough"):
     """Runs one cargo-kani invocation; returns (json or None, log_path, wall)."""
-    gdir = prepare_group(group)
+    gdir = os.path.join(VERIF, "engines", "kani", group)
     os.makedirs(os.path.join(BUILD, "run"), exist_ok=True)
     rid = "%s-%s-%d" % (tag, group, os.getpid())
     jpath = os.path.join(BUILD, "run", rid + ".json")
@@ -103,6 +105,7 @@ def run_kani_group(group, names, jobs, harness_timeout, overall_timeout, mem_gb,
     lockf = open(os.path.join(BUILD, group + ".lock"), "w")
     fcntl.flock(lockf, fcntl.LOCK_EX)
     try:
+        prepare_group(group, tier)   # (re)generate harness modules under the group lock
         with open(lpath, "w") as lf:
             lf.write("$ " + sh + "\n")
             lf.flush()
@@ -295,7 +298,7 @@ def run_check(spec, tier, seed):
     for group, ghs in by_group.items():
         jobs = min(caps.get("jobs", 16), max(1, len(ghs)))
         data, lpath, wall, rc, cmdtxt = run_kani_group(group, [h.name for h in ghs], jobs, ht, ot, mem,
-                                                        "%s-%s" % (pid, tier))
+                                                        "%s-%s" % (pid, tier), tier)
         cmds.append(cmdtxt)
         if data is None:
             tail = "".join(open(lpath).readlines()[-40:])
